@@ -500,3 +500,74 @@ def proto_print_history(fname, rng):
         return src, {"what": "the printed assembled subroutine does not parse back to itself", "printed": lines,
                      "parsed": rp}
     return src, None
+
+
+# ---- binary-leg histories: decode, edit the decoded objects in place, decode the same bytes again --------
+
+def binary_leg_history(fname, rng, keep):
+    """text -> bytes -> decode -> print; the decoded instructions are then edited in place (public setters,
+    operand fields, operand objects, the list); the SAME bytes are decoded again through the long-lived
+    Deserializer `keep`, a fresh one and the module-level deserialize(): every print must equal the first
+    one and assemble back to the same bytes.  Identical commands within one subroutine: editing one must
+    not show in the other.  Returns (description, problem or None)."""
+    import copy as _cp
+    from netqasm.lang.parsing.binary import Deserializer, deserialize
+    pool = [c for c in H.flavour_classes(fname) if not (fname == "vanilla" and c.id == 41)]
+    insts = [H.instances_of(rng.choice(pool), rng, 1, 2)[-1] for _ in range(rng.randrange(1, 5))]
+    lines = [str(i) for i in insts]
+    if rng.random() < 0.6:                       # identical commands within one subroutine
+        k = rng.randrange(len(lines))
+        for _ in range(rng.randrange(1, 3)):
+            lines.insert(rng.randrange(len(lines) + 1), lines[k])
+    desc = {"fl": fname, "text": lines, "steps": []}
+    rp, sub = real_parse(fname, lines, preamble=True)
+    if sub is None:
+        return desc, {"what": "the printed text does not parse", "parsed": rp}
+    try:
+        raw = bytes(sub)
+    except Exception as e:
+        return desc, {"what": "the parsed text does not encode", "exception": type(e).__name__}
+    entries = {"kept Deserializer": lambda: keep.deserialize_subroutine(raw),
+               "fresh Deserializer": lambda: Deserializer(H.FLAVOURS[fname]()).deserialize_subroutine(raw),
+               "deserialize(data, flavour)": lambda: deserialize(raw, flavour=H.FLAVOURS[fname]())}
+
+    def decode_print(name):
+        try:
+            d = entries[name]()
+            return d, [str(i) for i in d.instructions]
+        except Exception as e:
+            return None, {"exception": type(e).__name__ + ": " + str(e)[:100]}
+
+    first_name = rng.choice(list(entries))
+    d1, l1 = decode_print(first_name)
+    desc["steps"].append({"decode": first_name})
+    if l1 != lines:
+        return desc, {"what": "text -> binary -> text is not stable", "printed": l1}
+    # identical commands: edit one, the other must still print as before
+    for _ in range(rng.randrange(1, 4)):
+        snap = [str(i) for i in d1.instructions]
+        ed = mutate_parsed(d1, rng)
+        if ed is None:
+            continue
+        desc["steps"].append(ed)
+        if ed["mutate"] in ("operand-object", "instr-field"):
+            now = [str(i) for i in d1.instructions]
+            other = [k for k, (a, b) in enumerate(zip(snap, now)) if a != b and k != ed["instr"]]
+            if other and len(now) == len(snap):
+                return desc, {"what": "editing one decoded instruction changed another (identical) instruction of "
+                                      "the same decoded subroutine", "changed": other, "before": snap, "after": now}
+    for name in entries:
+        d2, l2 = decode_print(name)
+        desc["steps"].append({"decode_again": name})
+        if l2 != lines:
+            return desc, {"what": "decoding the same bytes again, after decoded objects were edited in place, "
+                                  "prints a different text", "entry": name, "first_print": lines, "now": l2}
+        rp2, sub2 = real_parse(fname, l2, preamble=True)
+        try:
+            raw2 = bytes(sub2) if sub2 is not None else None
+        except Exception:
+            raw2 = None
+        if raw2 != raw:
+            return desc, {"what": "the text printed for the re-decoded bytes does not assemble back to these bytes",
+                          "entry": name, "printed": l2}
+    return desc, None
